@@ -24,3 +24,4 @@ pub fn unescaped_quoted_string(input: &str) -> Option<(String, String)> {
 }
 
 // Per-property hook modules (one `pub mod cxx;` line each, add-only).
+pub mod c23;
